@@ -138,6 +138,13 @@ func processIMUL(env *Pass1, operands []ast.Exp) {
 		}
 	}
 
+	// codegen (handleIMUL) は matchAnyImm=false でエンコーディングを選ぶ (imm8 形式 6B ではなく 69 iw/id になる)。
+	// 同じ選び方でサイズを求め、pass1 の LOC と実際の出力バイト数を一致させる。
+	if enc, encErr := env.AsmDB.FindEncoding(instName, ngOperands, false); encErr == nil {
+		size = enc.GetOutputSize(nil) + env.AsmDB.GetPrefixSize(instName, ngOperands) +
+			ngOperands.CalcOffsetByteSize() + ngOperands.CalcSibByteSize()
+	}
+
 	// LOC を加算
 	env.LOC += int32(size)
 
